@@ -77,6 +77,10 @@ func genAd(r *rand.Rand, main Ident, pool []Ident) (*schema.Advertisement, adSha
 		}
 		at := r.Intn(len(eps) + 1)
 		eps = append(eps[:at], append([]Ident{main}, eps[at:]...)...)
+		if r.Intn(10) == 0 {
+			// an extended-provider section without any provider (it still carries the override flag)
+			eps, sh.NEP = nil, -1
+		}
 		for _, id := range eps {
 			ep.Providers = append(ep.Providers, schema.Provider{ID: id.ID.String(), Addresses: genAddrs(r, r.Intn(3)), Metadata: rbytes(r, r.Intn(20))})
 		}
